@@ -207,6 +207,7 @@ DIRECTIVES = [
     "layout:type:comma:line_position:leading",
     "rules:capitalisation.keywords:capitalisation_policy:upper",
     "rules:layout.long_lines:ignore_comment_lines:true",
+    "rules:LT02",
     "templater:jinja:apply_dbt_builtins:false",
 ]
 PLAIN = "select a,b from t\n"
@@ -258,6 +259,8 @@ def iso_case(n_first, route, d_idx):
             sqlfluff.lint(text_a, config=cfg)
         elif route == "lint_paths":
             lin.lint_paths((os.path.join(d, f"a{d_idx}.sql"),))
+        elif route == "lint_paths_one_run":
+            pass   # handled below: decorated files and the plain file go through ONE lint_paths call
         elif route == "child_config":
             child = cfg.make_child_from_path(os.path.join(d, f"a{d_idx}.sql"))
             child.process_raw_file_for_config(text_a, "a.sql")
@@ -270,13 +273,17 @@ def iso_case(n_first, route, d_idx):
         problems.append(f"the shared configuration changed in section(s) {sorted(set(ch))}")
     if _plain(lin.config) != before:
         problems.append("the linter's configuration changed")
-    got_b = _viol(lin.lint_string(PLAIN, fname="b.sql"))
+    if route == "lint_paths_one_run":
+        res = lin.lint_paths(tuple([os.path.join(d, f"a{d_idx}.sql")] * min(n_first, 1) + [os.path.join(d, "b.sql")]))
+        got_b = [_viol(f) for ld in res.paths for f in ld.files if f.path.endswith("b.sql")][0]
+    else:
+        got_b = _viol(lin.lint_string(PLAIN, fname="b.sql"))
     if got_b != fresh_b:
         problems.append(f"a later undecorated file reports {got_b}, alone it reports {fresh_b}")
     return problems
 
 
-ROUTES = ["parse_string", "lint_string", "simple_api", "lint_paths", "child_config", "copy"]
+ROUTES = ["parse_string", "lint_string", "simple_api", "lint_paths", "child_config", "copy", "lint_paths_one_run"]
 
 
 def make_iso():
